@@ -701,6 +701,8 @@ def c17_line_faults(seed, nmax=9, thin=False):
                     ek = kinds[(p + i + n) % len(kinds)] if not thin else ("eof" if (p + i) % 2 == 0 else r.choice(kinds))
                     f = read_fault("key", p, i)
                     f["ekind"] = ek
+                    if i < n and (p + i) % 3 != 0:
+                        f["mid"] = True          # the reader fails after part of the line has been delivered
                     b = build(n, combo, subst=subst, check_dups=True, faults=[f])
                     b["ksrc"] = "lines"
                     out.append(episode([b, {"op": "len"}], kt="str", kf=keyfn(r, "str"), src="faults"))
